@@ -100,6 +100,7 @@ structure St where
   sequence : Int := 0
   st26 : Int := 0
   f : Flow := {}
+  flags : Int := 0      -- `p->flags`: player flags of the current module (XMP_PLAYER_CFLAGS)
 deriving Repr, DecidableEq, Inhabited
 
 def errInvalid : Int := -7   -- -XMP_ERROR_INVALID
@@ -201,6 +202,48 @@ def xmpSetRow (m : CMod) (s : St) (row : Int) : Int × St :=
     let pos1 := if s.pos < 0 then 0 else s.pos
     (row, { s with pos := pos1, ord := pos1, row := row, frame := -1,
                    f := { s.f with numRows := m.rowsOf (m.xxoAt pos1) } })
+
+/-! ### xmp_set_player parameters that may re-run the scan
+
+`libxmp_scan_sequences` itself is not modelled (its result is the module description dumped
+after the call); what is modelled is *when* it runs and what the call does to the sequencing
+state.  `newNumSeq` is `m->num_sequences` after the rescan (an input: result of the external
+call). -/
+
+def flagVblank : Int := 1          -- XMP_FLAGS_VBLANK
+def modeMax : Int := 10            -- XMP_MODE_ITSMP
+
+/-- result of a parameter call: return code, new state, did `libxmp_scan_sequences` run. -/
+structure ParamRes where
+  ret : Int
+  st : St
+  rescan : Bool
+deriving Repr, DecidableEq
+
+/-- `if (p->sequence >= m->num_sequences) p->sequence = 0;` -/
+def clampSequence (s : St) (newNumSeq : Int) : St :=
+  if s.sequence ≥ newNumSeq then { s with sequence := 0 } else s
+
+/-- `xmp_set_player(XMP_PLAYER_FLAGS, v)`: sets the defaults for the next load only. -/
+def xmpSetFlags (s : St) (_v : Int) : ParamRes :=
+  if s.playing = false then ⟨errState, s, false⟩ else ⟨0, s, false⟩
+
+/-- `xmp_set_player(XMP_PLAYER_CFLAGS, v)`: stores the flags of the current module and re-runs
+the scan exactly when their VBLANK bit changes (the order times depend on the timing mode). -/
+def xmpSetCflags (s : St) (v newNumSeq : Int) : ParamRes :=
+  if s.playing = false then ⟨errState, s, false⟩
+  else
+    let s1 := { s with flags := v }
+    if s.flags % 2 ≠ v % 2 then ⟨0, clampSequence s1 newNumSeq, true⟩ else ⟨0, s1, false⟩
+
+/-- `xmp_set_player(XMP_PLAYER_MODE, v)`: a valid mode always re-runs the scan (`scanOk` = the
+first rescan found something playable; otherwise the old mode is restored, the scan repeated and
+the call refused); the sequencing state only has its sequence clamped. -/
+def xmpSetMode (s : St) (v newNumSeq : Int) (scanOk : Bool) : ParamRes :=
+  if s.playing = false then ⟨errState, s, false⟩
+  else if 0 ≤ v ∧ v ≤ modeMax then
+    ⟨(if scanOk then 0 else errInvalid), clampSequence s newNumSeq, true⟩
+  else ⟨errInvalid, s, false⟩
 
 /-- `xmp_stop_module`. -/
 def xmpStop (s : St) : St := if s.playing = false then s else { s with pos := -2 }
